@@ -2,6 +2,7 @@
 //! correctly split; metadata tables are consistent.
 
 use mc_core::par::par_items;
+use mc_core::seqs;
 use mc_core::{guard, Run, Tally, Violation};
 use pkgsrc::pkgdb::PkgDB;
 use pkgsrc::{Metadata, MetadataEntry};
@@ -445,6 +446,96 @@ fn check_names(t: &mut Tally, scratch: &Path, id: usize, names: &[String]) {
     }
 }
 
+/// Every sequence of <= n read_metadata calls over {Comment, Contents, Desc, BuildInfo} x four
+/// values on ONE Metadata object: after every call, is_valid holds exactly when the comment,
+/// contents and description getters are all non-empty (what the object itself reports).
+fn metadata_histories(t: &mut Tally, n: usize) {
+    const VALS: [&str; 4] = ["", "x", "\n", "two\nlines\n"];
+    let entries = [MetadataEntry::Comment, MetadataEntry::Contents, MetadataEntry::Desc, MetadataEntry::BuildInfo];
+    let k = entries.len() * VALS.len();
+    let mut pre = vec![];
+    seqs::dfs(k, n, &mut pre, &|_| false, &mut |q: &[usize]| {
+        if q.is_empty() {
+            return;
+        }
+        t.evals += 1;
+        t.validated += 1;
+        t.states += 1;
+        t.transitions += 1;
+        let r = guard(|| {
+            let mut m = Metadata::new();
+            for (step, o) in q.iter().enumerate() {
+                let e = match o / VALS.len() { 0 => MetadataEntry::Comment, 1 => MetadataEntry::Contents, 2 => MetadataEntry::Desc, _ => MetadataEntry::BuildInfo };
+                let _ = m.read_metadata(e, VALS[o % VALS.len()]);
+                let by_getters = !m.comment().is_empty() && !m.contents().is_empty() && !m.desc().is_empty();
+                if m.is_valid().is_ok() != by_getters {
+                    return Some((step, by_getters, m.is_valid().is_ok()));
+                }
+            }
+            None
+        });
+        let case = || json!({"calls": q.iter().map(|o| format!("{:?} <- {:?}", ["Comment", "Contents", "Desc", "BuildInfo"][o / VALS.len()], VALS[o % VALS.len()])).collect::<Vec<_>>()});
+        match r {
+            Ok(None) => t.outcome("metadata-history/consistent"),
+            Ok(Some((step, want, got))) => t.violation(Violation::new("metadata-history", case(), json!({"after_call": step + 1, "is_valid": want}), json!(got), "is_valid holds exactly when comment, contents and description are all non-empty")),
+            Err(m) => t.violation(Violation::new("metadata-history", case(), json!("returns"), json!(format!("panic: {}", m)), "Metadata panicked")),
+        }
+    });
+    let _ = entries;
+}
+
+/// One small database reached through different spellings of its root: a directory whose name
+/// is not UTF-8, a symbolic link to it, a trailing slash, '.' and '..' segments, a relative path.
+fn check_roots(t: &mut Tally, scratch: &Path) {
+    use std::os::unix::ffi::OsStrExt;
+    let base = scratch.join("roots");
+    let _ = std::fs::remove_dir_all(&base);
+    let real = base.join(std::ffi::OsStr::from_bytes(b"db-\xff\xe9 root"));
+    let fault = |e: std::io::Error| -> ! { mc_core::run::machinery_fault(&format!("cannot build the scratch database: {}", e)) };
+    let names = ["pkg-1.0", "lib-x-2.0nb1"];
+    for n in names {
+        std::fs::create_dir_all(real.join(n)).unwrap_or_else(|e| fault(e));
+        for f in MANDATORY {
+            std::fs::write(real.join(n).join(f), content(n, f)).unwrap_or_else(|e| fault(e));
+        }
+    }
+    std::fs::create_dir_all(base.join("side")).unwrap_or_else(|e| fault(e));
+    let link = base.join("link-to-db");
+    std::os::unix::fs::symlink(&real, &link).unwrap_or_else(|e| fault(e));
+    let mut with_slash = real.clone().into_os_string();
+    with_slash.push("/");
+    let mut dotted = base.clone().into_os_string();
+    dotted.push("/./side/../");
+    dotted.push(std::ffi::OsStr::from_bytes(b"db-\xff\xe9 root"));
+    let mut link_slash = link.clone().into_os_string();
+    link_slash.push("/");
+    let roots: Vec<(&str, std::path::PathBuf)> = vec![("directory with a non-UTF-8 name", real.clone()), ("symbolic link to it", link.clone()), ("trailing slash", with_slash.into()), ("'.' and '..' segments", dotted.into()), ("symbolic link with a trailing slash", link_slash.into())];
+    for (what, root) in roots {
+        t.evals += 1;
+        t.validated += 1;
+        t.states += 1;
+        t.transitions += 1;
+        let got = guard(|| {
+            let mut seen: Vec<(String, Result<String, String>)> = vec![];
+            for p in PkgDB::open(&root).map_err(|e| e.to_string())?.flatten() {
+                seen.push((p.pkgname().clone(), p.read_metadata(MetadataEntry::Desc).map_err(|e| e.kind().to_string())));
+            }
+            seen.sort();
+            Ok::<_, String>(seen)
+        });
+        let mut want: Vec<(String, Result<String, String>)> = names.iter().map(|n| (n.to_string(), Ok(content(n, "+DESC")))).collect();
+        want.sort();
+        match got {
+            Ok(Ok(seen)) if seen == want => {
+                t.nontrivial += 1;
+                t.outcome("roots/listed-and-read");
+            }
+            other => t.violation(Violation::new("roots", json!({"root": what}), json!(format!("{:?}", want)), json!(format!("{:?}", other)), "the same database, whatever the spelling of the path it is opened with")),
+        }
+    }
+    let _ = std::fs::remove_dir_all(&base);
+}
+
 fn tables(t: &mut Tally) {
     // bijection over the 14 '+' files
     for i in 0..14 {
@@ -547,6 +638,8 @@ fn replay(run: &Run, doc: &Value) -> Option<Violation> {
             let l = Layout { dirs, stray: c["stray"].as_u64().unwrap_or(0) as u8 };
             check_layout(&mut t, &run.scratch_dir(), 0, &l);
         }
+        Some("roots") => check_roots(&mut t, &run.scratch_dir()),
+        Some("metadata-history") => metadata_histories(&mut t, 4),
         Some("reiterate") => check_reiterate(&mut t, &run.scratch_dir(), c["variant"].as_u64().unwrap_or(0) as usize),
         Some("large") => check_large(&mut t, &run.scratch_dir(), c["packages"].as_u64().unwrap_or(1) as usize),
         Some("names") => {
@@ -669,7 +762,10 @@ fn main() {
             check_reiterate(t, &scratch, *i);
         });
     }
+    run.bound(format!("Metadata histories: all sequences of <= {} read_metadata calls over 4 entries x 4 values on one object; database roots: 5 spellings (non-UTF-8 name, symbolic link, trailing slash, dot segments)", run.pick(4, 5)));
     let mut t = Tally::new();
+    metadata_histories(&mut t, run.pick(4, 5));
+    check_roots(&mut t, &scratch);
     tables(&mut t);
     run.merge(t);
     run.finish();
